@@ -1138,13 +1138,17 @@ LEVEL_TEXT = (LEVEL_TEXT +
               "requires a value and on positional lines, and the two lines leading to the subcommands; for every node the "
               "file has its _<bin>_commands function with an entry per name and visible alias of every subcommand.  The "
               "recorded findings alias-without-primary and zsh-optional-value and a subcommand name with a space (lookup "
-              "returns another node: its flag is nowhere in the file; replayed) are proved class boundaries.  The model's "
+              "returns another node: its flag is nowhere in the file; replayed) are proved class boundaries.  At the level of the "
+              "tree the user wrote: when no subcommand carries an explicit bin name and the bin name is not empty, "
+              "Command::build yields a linked tree and generate (set_bin_name + build + generator) writes a script for every "
+              "tree and every assignment of texts.  The model's "
               "script is compared byte for byte with the real generator's on every generated tree on every run.")
 LEVEL_NOTE = ("Partial: nushell has no generator model (token oracle only); fish (two levels), PowerShell, elvish and zsh "
               "have byte-exact generator models with theorems but are not installed (their scripts are modelled and analysed, "
               "not run); bash itself is validated by execution, not proved; Command::build and its text side are tied "
-              "differentially (built-tree dump, byte-exact scripts; that build never exhausts its fuel IS proved); that build "
-              "yields a linked tree is a hypothesis of the zsh and bash theorems (tied by the built-tree dump); zsh: "
+              "differentially (built-tree dump, byte-exact scripts; that build never exhausts its fuel and yields a linked tree "
+              "ARE proved); that build keeps names free of spaces and sibling names distinct is a hypothesis of the zsh "
+              "exact-lookup and coverage theorems (tied by the built-tree dump); zsh: "
               "conflicts_with, value_names, value_terminator and last are outside the model (no spec format expresses them), "
               "multi-valued positionals after a catch-all are skipped by design; char::is_uppercase is a parameter of the "
               "PowerShell model; known findings (see known_findings.json) are outside the proved class.")
